@@ -243,6 +243,11 @@ pub struct World {
     pub outside_replace: Option<ProgSpec>,
     #[serde(default)]
     pub outside_keeps_mtime: bool,
+    /// environment variables / host files (entries "file:<path>") that read differently for this
+    /// exporter + importer than they really are (found by discovery: only what the code under
+    /// test actually asked for is ever listed)
+    #[serde(default)]
+    pub env_flip: Vec<String>,
     /// history of the *process*: worlds the same thread ran through earlier (a long-lived
     /// exporter/importer). Their own verdicts are not judged here.
     #[serde(default)]
@@ -549,6 +554,7 @@ fn run_world_inner(w: &World) -> Obs {
     }
     let mut obs = Obs::default();
     seams::install_plan(Plan::default());
+    seams::enter_party_env(w.env_flip.clone());
     let (path, pkey) = seams::sim_path_bytes(w.file_name.as_deref().unwrap_or(b"circuit.bristol.txt"));
     let pstr: &str = &pkey;
     let refpath = seams::sim_path("reference.txt");
@@ -908,6 +914,67 @@ pub fn run_worlds(keys: Keys, worlds: Vec<World>) -> Vec<Obs> {
     }
 }
 
+/// `c11-child`: one world (JSON on stdin) in a fresh process; prints one line per finding.
+/// Used for worlds with a flipped environment: what a process read from its environment once
+/// (and keeps in a static) cannot be flipped inside a worker that has been running for a while.
+pub fn child_main() -> i32 {
+    use std::io::Read;
+    let mut t = String::new();
+    if std::io::stdin().read_to_string(&mut t).is_err() {
+        return 2;
+    }
+    let Ok(w) = serde_json::from_str::<World>(&t) else { return 2 };
+    let o = run_world(&w);
+    seams::break_stdio(None);
+    for f in &o.findings {
+        println!("FINDING {}", serde_json::json!({"class": f.class, "signature": f.signature, "what": f.what}));
+    }
+    println!("DONE {} {}", o.executions, o.summary.replace('\n', " "));
+    0
+}
+
+/// Parent side of `c11-child`.
+fn run_world_in_child(w: &World) -> Obs {
+    use std::io::Write;
+    let mut obs = Obs::default();
+    let Ok(exe) = std::env::current_exe() else { return obs };
+    let Ok(mut child) = std::process::Command::new(exe)
+        .arg("c11-child")
+        .env("RUST_BACKTRACE", "0")
+        .stdin(std::process::Stdio::piped())
+        .stdout(std::process::Stdio::piped())
+        .stderr(std::process::Stdio::null())
+        .spawn()
+    else {
+        return obs;
+    };
+    let _ = child.stdin.take().unwrap().write_all(serde_json::to_string(w).unwrap().as_bytes());
+    let Ok(out) = child.wait_with_output() else { return obs };
+    let text = String::from_utf8_lossy(&out.stdout).to_string();
+    let mut done = false;
+    for l in text.lines() {
+        if let Some(j) = l.strip_prefix("FINDING ") {
+            if let Ok(v) = serde_json::from_str::<serde_json::Value>(j) {
+                obs.findings.push(Finding {
+                    class: v["class"].as_str().unwrap_or("").to_string(),
+                    signature: v["signature"].as_str().unwrap_or("").to_string(),
+                    what: v["what"].as_str().unwrap_or("").to_string(),
+                });
+            }
+        } else if let Some(r) = l.strip_prefix("DONE ") {
+            done = true;
+            obs.executions = r.split(' ').next().and_then(|n| n.parse().ok()).unwrap_or(1);
+            obs.summary = r.split_once(' ').map(|x| x.1.to_string()).unwrap_or_default();
+        }
+    }
+    if !done {
+        obs.findings.push(finding("process_died", "env_flipped_child", format!("exporter/importer process with a flipped environment died ({})", out.status)));
+    }
+    obs.nontrivial = true;
+    bump(&mut obs.counters, "environment_flipped_processes");
+    obs
+}
+
 pub fn run_world(w: &World) -> Obs {
     crate::supervise::announce_world(|| serde_json::to_string(w).unwrap());
     seams::reset_world();
@@ -1210,7 +1277,7 @@ static NSYNC_OF_LAST_REFERENCE: std::sync::atomic::AtomicU64 = std::sync::atomic
 
 fn reference_export(prog: &ProgSpec, dedup: bool, keys: Keys) -> Option<(Vec<u8>, u64, u64)> {
     // fault-free export to learn the size of the search space (write count, bytes)
-    let w = World { program: Some(prog.clone()), dedup, keys, export_plan: Plan::default(), corruptions: vec![], import_plan: Plan::default(), via_lib: false, s5: None, raw_text: None, prior: vec![], earlier: vec![], file_name: None, stdio_broken: None, outside_replace: None, outside_keeps_mtime: false };
+    let w = World { program: Some(prog.clone()), dedup, keys, export_plan: Plan::default(), corruptions: vec![], import_plan: Plan::default(), via_lib: false, s5: None, raw_text: None, prior: vec![], earlier: vec![], file_name: None, stdio_broken: None, outside_replace: None, outside_keeps_mtime: false, env_flip: vec![] };
     seams::reset_world();
     let w2 = w.clone();
     run_party(keys, move || {
@@ -1253,6 +1320,7 @@ pub fn make_world(plan: &CasePlan, seed: u64, idx: u64) -> (World, &'static str,
         stdio_broken: None,
         outside_replace: None,
         outside_keeps_mtime: false,
+        env_flip: vec![],
     };
     // the file's name and the state of the process's stdout/stderr are dimensions of every family
     if family != "s5" && p.chance(1, 3) {
@@ -1844,6 +1912,7 @@ fn run_sweep(base: &World, acc: &mut Acc) {
 
 pub fn run_case(plan: &CasePlan, seed: u64, idx: u64) -> CaseResult {
     clear_subject_cache();
+    let _ = seams::take_env_queries();
     let (w, family, p) = make_world(plan, seed, idx);
     let mut acc = Acc {
         executions: 0,
@@ -1865,10 +1934,37 @@ pub fn run_case(plan: &CasePlan, seed: u64, idx: u64) -> CaseResult {
         sample_summary = o.summary.clone();
         absorb(&o, &w, &mut acc);
     }
+    // environment discovery: if the exporter / importer asked for environment variables or host
+    // files, export and import the circuit once more in a fresh process in which they read
+    // differently, with and without a working stdout/stderr
+    let asked = seams::take_env_queries();
+    *acc.counters.entry("environment_variables_asked_for".into()).or_insert(0) += asked.len() as u64;
+    if !asked.is_empty() && w.program.is_some() {
+        for stdio in [None, Some(libc::EPIPE)] {
+            for via_lib in [false, true] {
+                let w2 = World {
+                    export_plan: Plan::default(),
+                    import_plan: Plan::default(),
+                    corruptions: vec![],
+                    prior: vec![],
+                    earlier: vec![],
+                    s5: None,
+                    raw_text: None,
+                    outside_replace: None,
+                    via_lib,
+                    env_flip: asked.clone(),
+                    stdio_broken: stdio,
+                    ..w.clone()
+                };
+                let o = run_world_in_child(&w2);
+                absorb(&o, &w2, &mut acc);
+            }
+        }
+    }
     acc.d.u64(p.draws);
     let mut violations = vec![];
     for (fw, f, hist) in std::mem::take(&mut acc.pending) {
-        let (mw, mf) = minimise(&fw, &f, &hist);
+        let (mw, mf) = if fw.env_flip.is_empty() { minimise(&fw, &f, &hist) } else { (fw.clone(), f.clone()) };
         violations.push(Violation {
             property: "C11".into(),
             class: mf.class.clone(),
